@@ -395,7 +395,7 @@ pub fn run(cfg: &RunCfg) {
       closure_case(name, world, json!({}), vec![("corpus_specs".into(), 1)])
     } else {
       let mut rng = Rng::for_case(seed, k);
-      let (world, info) = gen_world(&mut rng, &GenCfg { max_pkgs: 3, fail_pct: 12 });
+      let (world, info) = gen_world(&mut rng, &GenCfg { max_pkgs: 3, fail_pct: 12, cross_pkg_star: true });
       let mut dist: Vec<(String, u64)> = info.kinds.iter().map(|(k, v)| (format!("gen_{}", k), *v)).collect();
       dist.push(("generated_worlds".into(), 1));
       closure_case(&format!("gen-{}", k), &world, json!({"packages": info.pkgs.iter().map(|p| json!({"name": p.name, "modules": p.modules, "exports": p.exports, "failing": p.failing})).collect::<Vec<_>>()}), dist)
